@@ -153,6 +153,23 @@ impl QSpec {
                 e => out.push(Violation { sig: "Quantile.estimate:differs-from-headline".into(), detail: format!("p = {:?}, after {} observations estimate() = {e:?} but quantile() = {est:?}", self.p, t.count) }),
             },
             Mode::C15 => {
+                let before = out.len();
+                self.judge_c15(t, q, est, &mut out);
+                // streams whose span max - min is not representable (overflows f64): a distinct
+                // input class with its own signatures
+                if (t.gmax - t.gmin).is_infinite() {
+                    for v in out[before..].iter_mut() {
+                        v.sig = format!("{}:span-overflows-f64", v.sig);
+                    }
+                }
+            }
+        }
+        out
+    }
+
+    fn judge_c15(&self, t: &QState, q: &Quantile, est: f64, out: &mut Vec<Violation>) {
+        {
+            {
                 match guarded(|| q.len()) {
                     Ok(l) if l == t.count => {}
                     l => out.push(Violation { sig: "Quantile.len:wrong".into(), detail: format!("len() = {l:?}, expected {}", t.count) }),
@@ -210,7 +227,6 @@ impl QSpec {
                 }
             }
         }
-        out
     }
 }
 
